@@ -2287,16 +2287,125 @@ impl PrinterLogMessage {
 //@end
 
 
-    /// ASSUMED (not under contract: its loop body exceeds every resource limit, see wip_prepend_color.txt): the colour variant with
-    /// prepended fields writes the payload of the non-colour variant and returns its length
-    #[verifier::external_body]
-    fn print_evtx_prepend_color(&mut self, evtx: &Evtx, do_prependfile: bool, do_prependdate: bool) -> (r: PrinterLogMessageResult)
-        requires old(self).buffer@.len() == 0, old(self).col_ok(),
+    // ---- print_evtx_prepend_color in three pieces (its loop body as a whole exceeds every resource limit): the prefix part and the
+    // line part of the loop body are cut as slices into the two wrapper functions below and verified on their own; the function
+    // itself is verified with those two parts replaced by calls of the wrappers (R16), so the composition rests on their contracts
+    pub fn pec_prefix(stdout_color: &mut StandardStream, buffer: &mut Vec<u8>, color_spec_default: &ColorSpec, color_spec_last: &mut ColorSpec, prepend_file: &[u8], prepend_date: &[u8], do_prependfile: bool, do_prependdate: bool, printed_in: usize, flushed_in: usize) -> (r: PrinterLogMessageResult)
+        requires
+            cid(*old(color_spec_last)) == old(stdout_color).cur(), printed_in + old(buffer)@.len() + prepend_file@.len() + prepend_date@.len() <= usize::MAX, flushed_in < usize::MAX - 10,
         ensures
-            final(self).same_config(old(self)), final(self).same_colors(old(self)),
-            r is Ok ==> final(self).buffer@.len() == 0 && final(self).col_ok(),
-            r is Ok ==> r->Ok_0.0 as int == epayload(old(self).x_prefix(evtx.dt_spec(), do_prependfile, do_prependdate), evtx.data()).len(),
-    { unimplemented!() }
+            // C13: first the file-name field, then the datetime field (those asked for), nothing else
+            r is Ok ==> final(buffer)@.len() == 0 && cid(*final(color_spec_last)) == final(stdout_color).cur()
+                && vs(final(stdout_color), final(buffer)@) == vs(old(stdout_color), old(buffer)@)
+                    + (if do_prependfile { prepend_file@ } else { Seq::<u8>::empty() }) + (if do_prependdate { prepend_date@ } else { Seq::<u8>::empty() })
+                && r->Ok_0.0 as int == printed_in + old(buffer)@.len() + (if do_prependfile { prepend_file@.len() } else { 0 }) + (if do_prependdate { prepend_date@.len() } else { 0 })
+                && r->Ok_0.1 <= flushed_in + 7,
+    {
+        let mut printed: usize = printed_in;
+        let mut flushed: usize = flushed_in;
+//@cut slice path=src/printer/printers.rs impl=PrinterLogMessage fn=print_evtx_prepend_color anchor="setcolor_or_return!(self.stdout_color, self.buffer, self.color_spec_default, self.color_spec_last, printed, flushed);" k=1 take=range end_anchor="buffer_flush_or_return!(self.stdout_color, self.buffer, printed, flushed);" label=pec-PREFIX
+//@replace "self.stdout_color" "(*stdout_color)" count=*
+//@replace "self.buffer" "(*buffer)" count=*
+//@replace "self.color_spec_default" "(*color_spec_default)" count=*
+//@replace "self.color_spec_last" "(*color_spec_last)" count=*
+//@end
+        PrinterLogMessageResult::Ok((printed, flushed))
+    }
+    pub fn pec_mid(stdout_color: &mut StandardStream, buffer: &mut Vec<u8>, color_spec_sysline: &ColorSpec, color_spec_datetime: &ColorSpec, color_spec_last: &mut ColorSpec, line: &[u8], at: usize, beg: usize, end: usize, len: usize, printed_in: usize, flushed_in: usize) -> (r: PrinterLogMessageResult)
+        requires
+            cid(*old(color_spec_last)) == old(stdout_color).cur(), old(buffer)@.len() == 0, beg <= end, len == line@.len(), at + len <= usize::MAX,
+            printed_in + line@.len() <= usize::MAX, flushed_in < usize::MAX - 20,
+        ensures
+            // C13: the line itself, whole and once, wherever its datetime range lies (colour changes add no payload byte)
+            r is Ok ==> final(buffer)@.len() == 0 && cid(*final(color_spec_last)) == final(stdout_color).cur()
+                && vs(final(stdout_color), final(buffer)@) == vs(old(stdout_color), old(buffer)@) + line@
+                && r->Ok_0.0 as int == printed_in + line@.len() && r->Ok_0.1 <= flushed_in + 15,
+    {
+        let mut printed: usize = printed_in;
+        let mut flushed: usize = flushed_in;
+        proof {
+            if at <= beg && end < at + len {
+                assert(line@.subrange(0, beg - at) + line@.subrange(beg - at, end - at) + line@.subrange(end - at, line@.len() as int) =~= line@);
+            }
+        }
+//@cut slice path=src/printer/printers.rs impl=PrinterLogMessage fn=print_evtx_prepend_color anchor="match (at <= beg, end < at + len) {" take=block label=pec-MID
+//@replace "self.stdout_color" "(*stdout_color)" count=*
+//@replace "self.buffer" "(*buffer)" count=*
+//@replace "self.color_spec_sysline" "(*color_spec_sysline)" count=*
+//@replace "self.color_spec_datetime" "(*color_spec_datetime)" count=*
+//@replace "self.color_spec_last" "(*color_spec_last)" count=*
+//@end
+        PrinterLogMessageResult::Ok((printed, flushed))
+    }
+
+//@cut fn path=src/printer/printers.rs impl=PrinterLogMessage name=print_evtx_prepend_color ret=r rlimit=200
+//@subst_slice anchor="setcolor_or_return!(self.stdout_color, self.buffer, self.color_spec_default, self.color_spec_last, printed, flushed);" k=1 take=range end_anchor="buffer_flush_or_return!(self.stdout_color, self.buffer, printed, flushed);" label=pec-PREFIX with="match PrinterLogMessage::pec_prefix(&mut self.stdout_color, &mut self.buffer, &self.color_spec_default, &mut self.color_spec_last, prepend_file, prepend_date, do_prependfile, do_prependdate, printed, flushed) { PrinterLogMessageResult::Ok(v__) => { printed = v__.0; flushed = v__.1; } PrinterLogMessageResult::Err(e__) => { return PrinterLogMessageResult::Err(e__); } }"
+//@subst_slice anchor="match (at <= beg, end < at + len) {" take=block label=pec-MID with="match PrinterLogMessage::pec_mid(&mut self.stdout_color, &mut self.buffer, &self.color_spec_sysline, &self.color_spec_datetime, &mut self.color_spec_last, line, at, beg, end, len, printed, flushed) { PrinterLogMessageResult::Ok(v__) => { printed = v__.0; flushed = v__.1; } PrinterLogMessageResult::Err(e__) => { return PrinterLogMessageResult::Err(e__); } }"
+//@replace "data[a..].find_byte(NLu8)" "verif_find_byte(&data[a..], NLu8)"
+//@desugar_while_let 1 exit="assert(data@.subrange(a as int, data@.len() as int) =~= data@.skip(a as int)); lemma_epayload_tail_none(pre, data@, a as int);"
+//@spec
+    requires
+        old(self).buffer@.len() == 0, old(self).col_ok(),
+        do_prependfile ==> old(self).prepend_file is Some,
+        do_prependdate ==> old(self).prepend_date_format.bytes().len() > 0,
+        hl_ok(evtx.hl(), evtx.data().len() as int),
+        epayload(old(self).x_prefix(evtx.dt_spec(), do_prependfile, do_prependdate), evtx.data()).len() <= usize::MAX,
+        evtx.data().len() * 30 + 4 < usize::MAX,
+    ensures
+        final(self).same_config(old(self)), final(self).same_colors(old(self)),
+        r is Ok ==> final(self).buffer@.len() == 0 && final(self).col_ok(),
+        // C13: with colour too, the payload written is per line: file-name field, datetime field, line -- nothing else
+        // (which bytes are highlighted is not part of this contract)
+        r is Ok ==> final(self).stdout_color.view() == old(self).stdout_color.view() + epayload(old(self).x_prefix(evtx.dt_spec(), do_prependfile, do_prependdate), evtx.data()),
+        // C19: the count returned is the number of payload bytes written
+        r is Ok ==> r->Ok_0.0 as int == epayload(old(self).x_prefix(evtx.dt_spec(), do_prependfile, do_prependdate), evtx.data()).len(),
+//@at_entry
+    proof { reveal(vs); }
+    let ghost pre = self.x_prefix(evtx.dt_spec(), do_prependfile, do_prependdate);
+    let ghost total = epayload(pre, evtx.data());
+    let ghost v00 = self.stdout_color.view();
+//@after "let stdout_lock = self.stdout.lock();"
+    proof { assert(data@.skip(0) =~= data@); assert(vs(&self.stdout_color, self.buffer@) =~= v00); }
+//@loop 1
+        invariant
+            self.same_config(old(self)), self.same_colors(old(self)), self.col_ok(), self.buffer@.len() == 0,
+            data@ == evtx.data(), data@.len() <= usize::MAX, 0 <= a <= data@.len(), at == a, beg <= end, do_prependfile || do_prependdate || true,
+            pre == self.x_prefix(evtx.dt_spec(), do_prependfile, do_prependdate), total == epayload(pre, data@),
+            prepend_file@ == (if do_prependfile { self.pf() } else { Seq::<u8>::empty() }),
+            prepend_date@ == (if do_prependdate { dt_text(self.prepend_date_format.bytes(), self.prepend_date_offset, evtx.dt_spec()) } else { Seq::<u8>::empty() }),
+            // what has gone out so far ++ what the remaining text will contribute = the payload
+            vs(&self.stdout_color, self.buffer@) + epayload(pre, data@.skip(a as int)) == v00 + total,
+            printed + v00.len() == vs(&self.stdout_color, self.buffer@).len(), vs(&self.stdout_color, self.buffer@).len() <= v00.len() + total.len(),
+            flushed <= a * 30, total.len() <= usize::MAX, data@.len() * 30 + 4 < usize::MAX,
+        ensures
+            epayload(pre, data@.skip(a as int)) == Seq::<u8>::empty(),
+        decreases data@.len() - a,
+//@after "let line = &data[a..a + b + CHARSZ];"
+            let ghost a0 = a;
+            let ghost v0 = vs(&self.stdout_color, self.buffer@);
+            let ghost nxt = epayload(pre, data@.skip(a0 as int + b as int + 1));
+            proof {
+                let rest = data@.skip(a0 as int);
+                lemma_epayload_step(pre, rest, b as int);
+                assert(rest.take(b as int + 1) =~= line@);
+                assert(rest.skip(b as int + 1) =~= data@.skip(a0 as int + b as int + 1));
+                assert(pre =~= prepend_file@ + prepend_date@);
+                assert(v00 + total == v0 + (prepend_file@ + prepend_date@ + line@ + nxt)) by {
+                    assert(v0 + (pre + line@ + nxt) =~= v0 + (prepend_file@ + prepend_date@ + line@ + nxt));
+                }
+                lemma_len_parts(v0, prepend_file@, prepend_date@, line@, nxt);
+            }
+//@before "at += line.len();"
+            proof {
+                assert(vs(&self.stdout_color, self.buffer@) =~= v0 + prepend_file@ + prepend_date@ + line@);
+                assert(v0 + prepend_file@ + prepend_date@ + line@ + nxt =~= v0 + (prepend_file@ + prepend_date@ + line@ + nxt));
+            }
+//@before "black_box(&stdout_lock);"
+    proof {
+        assert(v00 + total =~= vs(&self.stdout_color, self.buffer@) + Seq::<u8>::empty());
+        assert(vs(&self.stdout_color, self.buffer@) =~= self.stdout_color.view());
+    }
+//@end
 
 //@cut fn path=src/printer/printers.rs impl=PrinterLogMessage name=print_evtx ret=r
 //@spec
@@ -2304,7 +2413,7 @@ impl PrinterLogMessage {
         old(self).config_ok(),
         hl_ok(evtx.hl(), evtx.data().len() as int),
         epayload(old(self).x_prefix(evtx.dt_spec(), old(self).do_prepend_file, old(self).do_prepend_date), evtx.data()).len() <= usize::MAX,
-        evtx.data().len() * 6 + 4 < usize::MAX,
+        evtx.data().len() * 30 + 4 < usize::MAX,
     ensures
         final(self).same_config(old(self)),
         r is Ok ==> final(self).config_ok(),
@@ -2313,16 +2422,127 @@ impl PrinterLogMessage {
             else { epayload(old(self).x_prefix(evtx.dt_spec(), old(self).do_prepend_file, old(self).do_prepend_date), evtx.data()).len() as int }),
 //@end
 
-    /// ASSUMED (not under contract: its loop body exceeds every resource limit, see wip_prepend_color.txt): the colour variant with
-    /// prepended fields writes the payload of the non-colour variant and returns its length
-    #[verifier::external_body]
-    fn print_journalentry_prepend_color(&mut self, journalentry: &JournalEntry, do_prependfile: bool, do_prependdate: bool) -> (r: PrinterLogMessageResult)
-        requires old(self).buffer@.len() == 0, old(self).col_ok(),
+    // ---- print_journalentry_prepend_color in three pieces (its loop body as a whole exceeds every resource limit): the prefix part and the
+    // line part of the loop body are cut as slices into the two wrapper functions below and verified on their own; the function
+    // itself is verified with those two parts replaced by calls of the wrappers (R16), so the composition rests on their contracts
+    pub fn pjc_prefix(stdout_color: &mut StandardStream, buffer: &mut Vec<u8>, color_spec_default: &ColorSpec, color_spec_last: &mut ColorSpec, prepend_file: &[u8], prepend_date: &[u8], do_prependfile: bool, do_prependdate: bool, printed_in: usize, flushed_in: usize) -> (r: PrinterLogMessageResult)
+        requires
+            do_prependfile || do_prependdate,
+            cid(*old(color_spec_last)) == old(stdout_color).cur(), printed_in + old(buffer)@.len() + prepend_file@.len() + prepend_date@.len() <= usize::MAX, flushed_in < usize::MAX - 10,
         ensures
-            final(self).same_config(old(self)), final(self).same_colors(old(self)),
-            r is Ok ==> final(self).buffer@.len() == 0 && final(self).col_ok(),
-            r is Ok ==> r->Ok_0.0 as int == epayload(old(self).x_prefix(journalentry.dt_spec(), do_prependfile, do_prependdate), journalentry.data()).len(),
-    { unimplemented!() }
+            // C13: first the file-name field, then the datetime field (those asked for), nothing else
+            r is Ok ==> final(buffer)@.len() == 0 && cid(*final(color_spec_last)) == final(stdout_color).cur()
+                && vs(final(stdout_color), final(buffer)@) == vs(old(stdout_color), old(buffer)@)
+                    + (if do_prependfile { prepend_file@ } else { Seq::<u8>::empty() }) + (if do_prependdate { prepend_date@ } else { Seq::<u8>::empty() })
+                && r->Ok_0.0 as int == printed_in + old(buffer)@.len() + (if do_prependfile { prepend_file@.len() } else { 0 }) + (if do_prependdate { prepend_date@.len() } else { 0 })
+                && r->Ok_0.1 <= flushed_in + 7,
+    {
+        let mut printed: usize = printed_in;
+        let mut flushed: usize = flushed_in;
+//@cut slice path=src/printer/printers.rs impl=PrinterLogMessage fn=print_journalentry_prepend_color anchor="match (do_prependfile, do_prependdate) {" k=1 take=range end_anchor="buffer_flush_or_return!(self.stdout_color, self.buffer, printed, flushed);" label=pjc-PREFIX
+//@replace "self.stdout_color" "(*stdout_color)" count=*
+//@replace "self.buffer" "(*buffer)" count=*
+//@replace "self.color_spec_default" "(*color_spec_default)" count=*
+//@replace "self.color_spec_last" "(*color_spec_last)" count=*
+//@end
+        PrinterLogMessageResult::Ok((printed, flushed))
+    }
+    pub fn pjc_mid(stdout_color: &mut StandardStream, buffer: &mut Vec<u8>, color_spec_sysline: &ColorSpec, color_spec_datetime: &ColorSpec, color_spec_last: &mut ColorSpec, line: &[u8], at: usize, beg: usize, end: usize, len: usize, printed_in: usize, flushed_in: usize) -> (r: PrinterLogMessageResult)
+        requires
+            cid(*old(color_spec_last)) == old(stdout_color).cur(), old(buffer)@.len() == 0, beg <= end, len == line@.len(), at + len <= usize::MAX,
+            printed_in + line@.len() <= usize::MAX, flushed_in < usize::MAX - 20,
+        ensures
+            // C13: the line itself, whole and once, wherever its datetime range lies (colour changes add no payload byte)
+            r is Ok ==> final(buffer)@.len() == 0 && cid(*final(color_spec_last)) == final(stdout_color).cur()
+                && vs(final(stdout_color), final(buffer)@) == vs(old(stdout_color), old(buffer)@) + line@
+                && r->Ok_0.0 as int == printed_in + line@.len() && r->Ok_0.1 <= flushed_in + 15,
+    {
+        let mut printed: usize = printed_in;
+        let mut flushed: usize = flushed_in;
+        proof {
+            if at <= beg && end < at + len {
+                assert(line@.subrange(0, beg - at) + line@.subrange(beg - at, end - at) + line@.subrange(end - at, line@.len() as int) =~= line@);
+            }
+        }
+//@cut slice path=src/printer/printers.rs impl=PrinterLogMessage fn=print_journalentry_prepend_color anchor="match (at <= beg, end < at + len) {" take=block label=pjc-MID
+//@replace "self.stdout_color" "(*stdout_color)" count=*
+//@replace "self.buffer" "(*buffer)" count=*
+//@replace "self.color_spec_sysline" "(*color_spec_sysline)" count=*
+//@replace "self.color_spec_datetime" "(*color_spec_datetime)" count=*
+//@replace "self.color_spec_last" "(*color_spec_last)" count=*
+//@end
+        PrinterLogMessageResult::Ok((printed, flushed))
+    }
+
+//@cut fn path=src/printer/printers.rs impl=PrinterLogMessage name=print_journalentry_prepend_color ret=r rlimit=200
+//@subst_slice anchor="match (do_prependfile, do_prependdate) {" k=1 take=range end_anchor="buffer_flush_or_return!(self.stdout_color, self.buffer, printed, flushed);" label=pjc-PREFIX with="match PrinterLogMessage::pjc_prefix(&mut self.stdout_color, &mut self.buffer, &self.color_spec_default, &mut self.color_spec_last, prepend_file, prepend_date, do_prependfile, do_prependdate, printed, flushed) { PrinterLogMessageResult::Ok(v__) => { printed = v__.0; flushed = v__.1; } PrinterLogMessageResult::Err(e__) => { return PrinterLogMessageResult::Err(e__); } }"
+//@subst_slice anchor="match (at <= beg, end < at + len) {" take=block label=pjc-MID with="match PrinterLogMessage::pjc_mid(&mut self.stdout_color, &mut self.buffer, &self.color_spec_sysline, &self.color_spec_datetime, &mut self.color_spec_last, line, at, beg, end, len, printed, flushed) { PrinterLogMessageResult::Ok(v__) => { printed = v__.0; flushed = v__.1; } PrinterLogMessageResult::Err(e__) => { return PrinterLogMessageResult::Err(e__); } }"
+//@replace "data[a..].find_byte(NLu8)" "verif_find_byte(&data[a..], NLu8)"
+//@desugar_while_let 1 exit="assert(data@.subrange(a as int, data@.len() as int) =~= data@.skip(a as int)); lemma_epayload_tail_none(pre, data@, a as int);"
+//@spec
+    requires
+        old(self).buffer@.len() == 0, old(self).col_ok(),
+        do_prependfile || do_prependdate,
+        do_prependfile ==> old(self).prepend_file is Some,
+        do_prependdate ==> old(self).prepend_date_format.bytes().len() > 0,
+        hl_ok(journalentry.hl(), journalentry.data().len() as int),
+        epayload(old(self).x_prefix(journalentry.dt_spec(), do_prependfile, do_prependdate), journalentry.data()).len() <= usize::MAX,
+        journalentry.data().len() * 30 + 4 < usize::MAX,
+    ensures
+        final(self).same_config(old(self)), final(self).same_colors(old(self)),
+        r is Ok ==> final(self).buffer@.len() == 0 && final(self).col_ok(),
+        // C13: with colour too, the payload written is per line: file-name field, datetime field, line -- nothing else
+        // (which bytes are highlighted is not part of this contract)
+        r is Ok ==> final(self).stdout_color.view() == old(self).stdout_color.view() + epayload(old(self).x_prefix(journalentry.dt_spec(), do_prependfile, do_prependdate), journalentry.data()),
+        // C19: the count returned is the number of payload bytes written
+        r is Ok ==> r->Ok_0.0 as int == epayload(old(self).x_prefix(journalentry.dt_spec(), do_prependfile, do_prependdate), journalentry.data()).len(),
+//@at_entry
+    proof { reveal(vs); }
+    let ghost pre = self.x_prefix(journalentry.dt_spec(), do_prependfile, do_prependdate);
+    let ghost total = epayload(pre, journalentry.data());
+    let ghost v00 = self.stdout_color.view();
+//@after "let stdout_lock = self.stdout.lock();"
+    proof { assert(data@.skip(0) =~= data@); assert(vs(&self.stdout_color, self.buffer@) =~= v00); }
+//@loop 1
+        invariant
+            self.same_config(old(self)), self.same_colors(old(self)), self.col_ok(), self.buffer@.len() == 0,
+            data@ == journalentry.data(), data@.len() <= usize::MAX, 0 <= a <= data@.len(), at == a, beg <= end, do_prependfile || do_prependdate || false,
+            pre == self.x_prefix(journalentry.dt_spec(), do_prependfile, do_prependdate), total == epayload(pre, data@),
+            prepend_file@ == (if do_prependfile { self.pf() } else { Seq::<u8>::empty() }),
+            prepend_date@ == (if do_prependdate { dt_text(self.prepend_date_format.bytes(), self.prepend_date_offset, journalentry.dt_spec()) } else { Seq::<u8>::empty() }),
+            // what has gone out so far ++ what the remaining text will contribute = the payload
+            vs(&self.stdout_color, self.buffer@) + epayload(pre, data@.skip(a as int)) == v00 + total,
+            printed + v00.len() == vs(&self.stdout_color, self.buffer@).len(), vs(&self.stdout_color, self.buffer@).len() <= v00.len() + total.len(),
+            flushed <= a * 30, total.len() <= usize::MAX, data@.len() * 30 + 4 < usize::MAX,
+        ensures
+            epayload(pre, data@.skip(a as int)) == Seq::<u8>::empty(),
+        decreases data@.len() - a,
+//@after "let line = &data[a..a + b + CHARSZ];"
+            let ghost a0 = a;
+            let ghost v0 = vs(&self.stdout_color, self.buffer@);
+            let ghost nxt = epayload(pre, data@.skip(a0 as int + b as int + 1));
+            proof {
+                let rest = data@.skip(a0 as int);
+                lemma_epayload_step(pre, rest, b as int);
+                assert(rest.take(b as int + 1) =~= line@);
+                assert(rest.skip(b as int + 1) =~= data@.skip(a0 as int + b as int + 1));
+                assert(pre =~= prepend_file@ + prepend_date@);
+                assert(v00 + total == v0 + (prepend_file@ + prepend_date@ + line@ + nxt)) by {
+                    assert(v0 + (pre + line@ + nxt) =~= v0 + (prepend_file@ + prepend_date@ + line@ + nxt));
+                }
+                lemma_len_parts(v0, prepend_file@, prepend_date@, line@, nxt);
+            }
+//@before "at += line.len();"
+            proof {
+                assert(vs(&self.stdout_color, self.buffer@) =~= v0 + prepend_file@ + prepend_date@ + line@);
+                assert(v0 + prepend_file@ + prepend_date@ + line@ + nxt =~= v0 + (prepend_file@ + prepend_date@ + line@ + nxt));
+            }
+//@before "black_box(&stdout_lock);"
+    proof {
+        assert(v00 + total =~= vs(&self.stdout_color, self.buffer@) + Seq::<u8>::empty());
+        assert(vs(&self.stdout_color, self.buffer@) =~= self.stdout_color.view());
+    }
+//@end
 
 //@cut fn path=src/printer/printers.rs impl=PrinterLogMessage name=print_journalentry ret=r
 //@spec
@@ -2330,7 +2550,7 @@ impl PrinterLogMessage {
         old(self).config_ok(),
         hl_ok(journalentry.hl(), journalentry.data().len() as int),
         epayload(old(self).x_prefix(journalentry.dt_spec(), old(self).do_prepend_file, old(self).do_prepend_date), journalentry.data()).len() <= usize::MAX,
-        journalentry.data().len() * 6 + 4 < usize::MAX,
+        journalentry.data().len() * 30 + 4 < usize::MAX,
     ensures
         final(self).same_config(old(self)),
         r is Ok ==> final(self).config_ok(),
